@@ -1228,10 +1228,14 @@ class Executor:
         # 1. summaries / exact copia functions
         name = func
         h = self.summaries.get(name)
+        if h is None and "<" in name:
+            h = self.summaries.get(strip_generics(name))
         if h is not None:
             self.used_summaries.add(name)
             return h(self, st, args, dest_ty, func, where)
         fn = self.find_fn(name)
+        if fn is None and "::<" in name:
+            fn = self.find_fn(strip_generics(name))          # free generic function: `f::<A, B>` is defined as `f`
         if fn is None:
             # path printed at the call site may differ from the definition (impl blocks):
             fn = self.resolve_by_suffix(name)
